@@ -92,6 +92,26 @@ class C02(Prop):
                                 pipe = ["map", "add1", pipe]
                             out.append(Case("time", fl, [("pipe", [pipe])], evs,
                                             {"kind": "time-overtake", "cut": cut}))
+        # degenerate windows: debounce / throttle with window 0 (every item still goes through its own scheduler task),
+        # several items before the executor gets a turn, unsubscribe, THEN the executor runs: every task that was
+        # scheduled must have been cancelled (seed C02-9: a zero-length window counted as over at once, the next item's
+        # handle overwrote the pending one in the shared cell without cancelling it)
+        for st in (["debounce", "0"], ["throttle", "0", "t"], ["throttle", "0", "a"], ["throttle", "0", "l"],
+                   ["debounce", "1"], ["throttle", "1", "t"], ["throttle", "1", "a"]):
+            for k in (1, 2, 3, 4):
+                for mid in ([], [["poll", "0"]], [["run"]], [["adv", "1"]]):
+                    for fl in ("local", "threads"):
+                        evs = [["sub"]]
+                        for i in range(k):
+                            evs.append(["emit", "0", ["n", str(i + 1)]])
+                            if i == 0:
+                                evs += mid
+                        cut = len(evs)
+                        evs += [["unsub"], ["run"], ["adv", "3"], ["run"], ["emit", "0", ["n", "99"]], ["adv", "3"], ["run"]]
+                        pipe = st + [["hot", "0"]]
+                        if (k + len(mid)) % 3 == 0:
+                            pipe = ["map", "add1", pipe]
+                        out.append(Case("time", fl, [("pipe", [pipe])], evs, {"kind": "time-zero-window", "cut": cut}))
         # a two-input operator inside a time chain, its second input being its own source (another hot subject, an
         # interval): unsubscribing must also end that second subscription / cancel its task, and a terminal of the
         # second input must be handled where the chain model handles it (`TW.deliverNotifiers`, `unsubFrom` of an
